@@ -391,6 +391,9 @@ impl<T> Future for ReceiveFuture<'_, T> {
                 _ => {
                     if this.is_stream {
                         this.state = FutureState::Zero;
+                        // the signal is going to be registered again, forget the
+                        // result of the previous wait
+                        this.sig.reset();
                         continue;
                     }
                     panic!("polled after result is already returned")
